@@ -101,3 +101,23 @@ Check eq_refl : judge (CEngine 2 (evs 1) [ (st 1 0 false, None); (st 1 0 true, N
 Check eq_refl : judge (CEngine 2 (evs 1) [ (st 1 5 false, None); (st 1 19 true, None) ]%list
                                [ st 1 19 true; flat ]%list true) = 2%N.
 End PinCorr.
+
+(* the oracle accepts what the model itself produces on a history with two instruments, both price
+   sources, a stale trade, an increase and a flip (only known-class verdicts: the two fee-carrying
+   openings) *)
+Module PinSelf.
+Import Corr.C15.
+Local Close Scope Qc_scope.
+Local Open Scope Q_scope.
+Definition evs := [ OFill (mkOF 1 0 10 Buy 100 2 1);
+    OMarket 0 (OMTrade 20 (Some 104));
+    OMarket 0 (OML1 30 30 (Some (105, 1)) (Some (107, 3)));
+    OMarket 0 (OMTrade 15 (Some 90));
+    OFill (mkOF 2 0 40 Buy 106 1 1);
+    OMarket 1 (OMTrade 45 (Some 55));
+    OMarket 0 (OMOther 50);
+    OFill (mkOF 3 0 60 Sell 108 5 2);
+    OMarket 0 (OMOther 70) ]%list.
+Check eq_refl : oracle_accepts_model (CEngine 2 evs [] [] true) = true.
+Check eq_refl : verdicts (model_case (CEngine 2 evs [] [] true)) = [1; 0; 0; 0; 0; 0; 0; 1; 0]%N.
+End PinSelf.
